@@ -229,6 +229,87 @@ class C16Phh(Monitor):
                 self.report('no_truncation', f'extra_action_crash:{type(ex).__name__}', f'inapplicable extra action: {type(ex).__name__} instead of ValueError')
 
 
+
+# ------------------------------------------------------------------------------------------------
+# commentary strings (part of C16's quantifier; the lock-step stream plays without commentary)
+COMMENT_ALPHABET = ['a', 'b', 'Z', '7', ' ', ' ', '  ', '#', "'", '"', '\\', '\t', 'é', '☃', ',', ':', '=', '[', ']', '-']
+
+
+def _gen_comment(rng):
+    k = rng.choice([0, 1, 2, 3, 5, 9])
+    t = ''.join(rng.choice(COMMENT_ALPHABET) for _ in range(k))
+    return t.replace("'''", "''")       # three apostrophes in a row: recorded finding F16
+
+
+def play_commented(seed):
+    """a short no-limit hold'em hand whose player actions carry commentary; returns (game, state, comments)"""
+    import random
+    from pokerkit import Automation, NoLimitTexasHoldem
+    rng = random.Random(seed)
+    autos = tuple(a for a in Automation if a != Automation.HOLE_CARDS_SHOWING_OR_MUCKING)
+    n = rng.randint(2, 4)
+    game = NoLimitTexasHoldem(autos, True, 0, (1, 2), 2)
+    s = game(rng.choice([40, 200]), n)
+    comments = []
+    guard = 0
+    with warnings.catch_warnings():
+        warnings.simplefilter('ignore')
+        while s.status and guard < 60:
+            guard += 1
+            c = _gen_comment(rng) if rng.random() < 0.7 else None
+            if s.can_show_or_muck_hole_cards():
+                o = s.show_or_muck_hole_cards(True, commentary=c)
+            elif s.actor_index is not None:
+                r = rng.random()
+                if r < 0.15 and s.can_fold():
+                    o = s.fold(commentary=c)
+                elif r < 0.4 and s.can_complete_bet_or_raise_to():
+                    o = s.complete_bet_or_raise_to(commentary=c)
+                else:
+                    o = s.check_or_call(commentary=c)
+            else:
+                break
+            comments.append((type(o).__name__, c))
+    return game, s, comments
+
+
+def commentary_violations(seed):
+    """[(signature, detail)] for one commented hand: saving, loading and replaying keeps every commentary
+    (up to the trailing blanks the writer drops)"""
+    from pokerkit import HandHistory
+    game, s, comments = play_commented(seed)
+    out = []
+    want = [(n, None if c is None else c.rstrip()) for n, c in comments]
+    try:
+        with warnings.catch_warnings():
+            warnings.simplefilter('ignore')
+            hh = HandHistory.from_game_state(game, s)
+            text = hh.dumps()
+            hh2 = HandHistory.loads(text)
+            again = hh2.dumps()
+            final = list(hh2)[-1]
+    except Exception as ex:  # noqa: BLE001
+        return [(f'commentary:raises:{type(ex).__name__}', f'seed {seed}: {type(ex).__name__}: {ex}; commentary {comments}')]
+    if again != text:
+        out.append(('commentary:resave_differs', f'seed {seed}: saving the loaded history again changes the text; commentary {comments}'))
+    names = {n for n, _ in comments}
+    got = [(type(o).__name__, o.commentary) for o in final.operations if type(o).__name__ in names][:len(want)]
+    norm = lambda l: [(n, (c or None)) for n, c in l]  # noqa: E731   ('' and None are written alike)
+    if norm(got) != norm(want):
+        k = next((i for i, (x, y) in enumerate(zip(norm(got), norm(want))) if x != y), min(len(got), len(want)))
+        out.append(('commentary:replay_differs', f'seed {seed}: commentary of action #{k} played {want[k:k + 1]!r}, replayed {got[k:k + 1]!r}'))
+    return out
+
+
+def check_commentary(seed, count):
+    viols = []
+    for i in range(count):
+        for sig, detail in commentary_violations(seed * 100003 + i):
+            viols.append(dict(property='C16', clause='commentary', signature=sig, detail=detail,
+                              script=[], valid=[], meta={'commentary_seed': seed * 100003 + i}))
+    return dict(count=count, viols=viols)
+
+
 import monitors as _m  # noqa: E402
 
 _m.ALL['C16'] = C16Phh
